@@ -24,7 +24,7 @@ RULE = ('operator trees over {unary -, * / %, + -, = != < <= > >=, IN, BETWEEN, 
 ASSUMPTIONS = ['standard precedence (tightest first): unary minus; * / %; + -; comparisons and predicates; NOT; AND; OR; left-assoc chains',
                'a comparison/predicate directly under a comparison/predicate is always parenthesised (the property\'s side condition)',
                'sqlite3 3.40 as reference engine; its finer levels (< tighter than =) are invisible under the side condition']
-BUDGET = {'quick': (12, 80), 'thorough': (16, 600)}
+BUDGET = {'quick': (16, 240), 'thorough': (16, 1800)}
 DIALECTS = ('mindsdb', 'mysql', 'sqlite')
 
 CONTEXTS = {
